@@ -121,7 +121,8 @@ class Continue(Case):
     timeout_s = 300
     bounds = ('histories: 1..3 iterblocks(piece, padding=False) calls (pieces of 0, 1 or 2 whole blocks) followed by a final padded call with a tail of '
               '0, 1, B-1 or B bytes, on one object; every yielded block and the counter after every yield must equal the one-shot run on the concatenation; '
-              'an unpadded piece that is not a whole number of blocks must raise; schemes: bitpadding, pkcs7 (B=64), MDpadding, SHApadding (512/32), Blakepadding(256)')
+              'an unpadded piece that is not a whole number of blocks must raise; schemes: bitpadding, pkcs7 (B=64), MDpadding, SHApadding (512/32), Blakepadding(256), and Nullpadding(16)/nopadding(64) on 20 histories '
+              '(quick); thorough adds every history for Nullpadding, X923, nopadding, SHApadding(1024/64), Blakepadding(512)')
 
     def shapes(self, tier):
         cfgs = [dict(scheme='bitpadding', B=64), dict(scheme='pkcs7', B=64), dict(scheme='MDpadding', B=512, w=32),
@@ -142,6 +143,12 @@ class Continue(Case):
                             continue
                         yield dict(cfg, pieces=list(pieces), tail=t)
             yield dict(cfg, pieces=[1], tail=0, bad=1)
+        if tier == 'quick':
+            # the never-padding schemes finished by an empty / whole-block final call (no extra block may appear)
+            for cfg in (dict(scheme='Nullpadding', B=16), dict(scheme='nopadding', B=64)):
+                for pieces in ((1,), (2,), (0, 1), (1, 0), (0, 0)):
+                    for t in (0, cfg['B'] // 8):
+                        yield dict(cfg, pieces=list(pieces), tail=t)
 
     def mk(self, shape, src):
         Bb = shape['B'] // 8
@@ -190,8 +197,8 @@ class Continue(Case):
             fed += k
             out.append(dict(after=fed * B, flag=False))
         # the final call: remaining blocks; counters continue from the bits already fed
-        if s == 'nopadding' and i == len(blks):
-            out.append(dict(b=b'', bitcnt=fed * B))
+        if s == 'nopadding' and i == len(blks) and fed == 0:
+            out.append(dict(b=b'', bitcnt=0))        # the empty message: one empty block is tolerated (as in the one-shot case); after data nothing more may be emitted
         while i < len(blks):
             out.append(dict(b=_b(blks[i]), bitcnt=R.bitcnt_after(i, 8 * n, B) if (i * B < 8 * n or i == fed == 0) else 0))
             i += 1
